@@ -58,6 +58,9 @@ theorem dst_write_ok (d : Dst) (p : Bytes) (h : d.failAt = none) :
 theorem popMask_dst (e : Env) : e.popMask.2.dst = e.dst := by
   unfold Env.popMask; split <;> rfl
 
+theorem popMask_masks (e : Env) : e.popMask.2.masks = e.masks.drop 1 := by
+  obtain ⟨d, ms⟩ := e; cases ms <;> rfl
+
 theorem Mask.zero_wf : Mask.zero.WF := by decide
 
 theorem popMask_wf (e : Env) (h : EnvOk e) : e.popMask.1.WF ∧ EnvOk e.popMask.2 := by
@@ -149,8 +152,10 @@ theorem flush_spec (w : Wr) (e : Env) (hinv : Inv w) (he : EnvOk e) (hop : w.op 
     ∃ w' e', w.flush e = some (none, w', e') ∧ Inv w' ∧ EnvOk e'
       ∧ w' = { w with buf := [], dirty := false, fseq := 0 }
       ∧ e'.dst.writes = e.dst.writes ++ [rfcEncode (wireHeader w.client (flushTemplate w true) e.popMask.1)
-                                          ++ wirePayload w.client w.buf e.popMask.1] := by
-  obtain ⟨e', h1, h2, h3, _⟩ := flushFragment_spec w e true hinv he hop hbuf hlen
+                                          ++ wirePayload w.client w.buf e.popMask.1]
+      ∧ e'.masks = (if w.client then e.masks.drop 1 else e.masks) := by
+  obtain ⟨e', h1, h2, h3, h4⟩ := flushFragment_spec w e true hinv he hop hbuf hlen
+  rw [popMask_masks] at h4
   have hc : ((!w.dirty && w.buf.length == 0) || w.err) = false := by
     rcases hdirty with h | h
     · simp [h, herr]
@@ -159,7 +164,7 @@ theorem flush_spec (w : Wr) (e : Env) (hinv : Inv w) (he : EnvOk e) (hop : w.op 
       | cons x xs => simp [herr]
   unfold Wr.flush
   simp only [hc, h1, Bool.false_eq_true, if_false]
-  refine ⟨_, _, rfl, ?_, h2, by simp [herr], h3⟩
+  refine ⟨_, _, rfl, ?_, h2, by simp [herr], h3, h4⟩
   exact ⟨hinv.off_eq, hinv.room, by simp [Wr.size]⟩
 
 /-- FlushFragment: one non-final frame carrying everything buffered; the next frame of the message
@@ -170,18 +175,20 @@ theorem flushFrag_spec (w : Wr) (e : Env) (hinv : Inv w) (he : EnvOk e) (hop : w
     ∧ (w.buf ≠ [] → ∃ w' e', w.flushFrag e = some (none, w', e') ∧ Inv w' ∧ EnvOk e'
         ∧ w' = { w with buf := [], fseq := w.fseq + 1 }
         ∧ e'.dst.writes = e.dst.writes ++ [rfcEncode (wireHeader w.client (flushTemplate w false) e.popMask.1)
-                                            ++ wirePayload w.client w.buf e.popMask.1]) := by
+                                            ++ wirePayload w.client w.buf e.popMask.1]
+        ∧ e'.masks = (if w.client then e.masks.drop 1 else e.masks)) := by
   constructor
   · intro hb; unfold Wr.flushFrag; simp [hb, herr]
   · intro hb
-    obtain ⟨e', h1, h2, h3, _⟩ := flushFragment_spec w e false hinv he hop hbuf hlen
+    obtain ⟨e', h1, h2, h3, h4⟩ := flushFragment_spec w e false hinv he hop hbuf hlen
+    rw [popMask_masks] at h4
     have hc : (w.buf.length == 0 || w.err) = false := by
       cases hb' : w.buf with
       | nil => exact absurd hb' hb
       | cons x xs => simp [herr]
     unfold Wr.flushFrag
     simp only [hc, h1, Bool.false_eq_true, if_false]
-    refine ⟨_, _, rfl, ?_, h2, by simp [herr], h3⟩
+    refine ⟨_, _, rfl, ?_, h2, by simp [herr], h3, h4⟩
     exact ⟨hinv.off_eq, hinv.room, by simp [Wr.size]⟩
 
 /-- WriteThrough on an empty buffer: exactly one non-final frame with the caller's bytes (two
@@ -192,7 +199,8 @@ theorem writeThrough_spec (w : Wr) (e : Env) (p : Bytes) (hinv : Inv w) (he : En
       ∧ w' = { w with dirty := true, fseq := w.fseq + 1 }
       ∧ e'.dst.writes = e.dst.writes ++
           [rfcEncode (wireHeader w.client { flushTemplate w false with len := p.length } e.popMask.1),
-           wirePayload w.client p e.popMask.1] := by
+           wirePayload w.client p e.popMask.1]
+      ∧ e'.masks = (if w.client then e.masks.drop 1 else e.masks) := by
   have htw : ({ flushTemplate w false with len := p.length } : Header).WF := by
     obtain ⟨a, b, _, d, f⟩ := flushTemplate_wf w false hop (by simp [hb])
     exact ⟨a, b, hlen, d, f⟩
@@ -208,11 +216,11 @@ theorem writeThrough_spec (w : Wr) (e : Env) (p : Bytes) (hinv : Inv w) (he : En
   cases hc : w.client
   · refine ⟨{ w with dirty := true, fseq := w.fseq + 1 },
       { e with dst := { e.dst with writes := e.dst.writes ++ [H, P], calls := e.dst.calls + 1 + 1 } },
-      ?_, ⟨hinv.off_eq, hinv.room, by simp [Wr.size, hb]⟩, ⟨he.masks_wf, he.no_fail⟩, by rw [hc, hb, herr], rfl⟩
+      ?_, ⟨hinv.off_eq, hinv.room, by simp [Wr.size, hb]⟩, ⟨he.masks_wf, he.no_fail⟩, by rw [hc, hb, herr], rfl, by simp⟩
     simp [Dst.write, he.no_fail, herr, hc, hb]
   · refine ⟨{ w with dirty := true, fseq := w.fseq + 1 },
       { e.popMask.2 with dst := { e.popMask.2.dst with writes := e.dst.writes ++ [H, P], calls := e.popMask.2.dst.calls + 1 + 1 } },
-      ?_, ⟨hinv.off_eq, hinv.room, by simp [Wr.size, hb]⟩, ⟨he2.masks_wf, hf2⟩, by rw [hc, hb, herr], rfl⟩
+      ?_, ⟨hinv.off_eq, hinv.room, by simp [Wr.size, hb]⟩, ⟨he2.masks_wf, hf2⟩, by rw [hc, hb, herr], rfl, by simp [popMask_masks]⟩
     simp [Dst.write, hf2, he.no_fail, herr, popMask_dst, hc, hb]
 
 /-- Data that fits the free space of the buffer is buffered: nothing is sent, nothing is lost. -/
@@ -454,64 +462,61 @@ theorem flushTemplate_af (w : Wr) (fin : Bool) :
 theorem flush_refines (w : Wr) (e : Env) (hinv : Inv w) (he : EnvOk e) (hop : w.op < 16)
     (hbuf : Bytes.WF w.buf) (hlen : w.buf.length < 2 ^ 63) (herr : w.err = false) :
     ∃ e', w.flush e = some (none, (w.stepA .flush).1, e') ∧ Inv (w.stepA .flush).1 ∧ EnvOk e'
-      ∧ e'.dst.writes.flatten = e.dst.writes.flatten ++ encFrames w.client (w.stepA .flush).2.1 e := by
+      ∧ e'.dst.writes.flatten = e.dst.writes.flatten ++ encFrames w.client (w.stepA .flush).2.1 e
+      ∧ e'.masks = (if w.client then e.masks.drop (w.stepA .flush).2.1.length else e.masks) := by
   by_cases hc : (!w.dirty && w.buf.length == 0) = true
   · have hc' := hc
     simp only [Bool.and_eq_true, Bool.not_eq_true', beq_iff_eq, List.length_eq_zero_iff] at hc'
-    refine ⟨e, ?_, ?_, he, ?_⟩
+    refine ⟨e, ?_, ?_, he, ?_, ?_⟩
     · rw [empty_flush_emits_nothing w e hc'.1 hc'.2 herr]; simp [Wr.stepA, hc]
     · simpa [Wr.stepA, hc] using hinv
     · simp [Wr.stepA, hc, encFrames]
+    · simp [Wr.stepA, hc]
   · have hd : w.dirty = true ∨ w.buf ≠ [] := by
       simp only [Bool.and_eq_true, Bool.not_eq_true', beq_iff_eq, List.length_eq_zero_iff, not_and] at hc
       cases hdd : w.dirty
       · exact Or.inr (hc hdd)
       · exact Or.inl rfl
-    obtain ⟨w', e', h1, h2, h3, h4, h5⟩ := flush_spec w e hinv he hop hbuf hlen herr hd
-    refine ⟨e', ?_, ?_, h3, ?_⟩
+    obtain ⟨w', e', h1, h2, h3, h4, h5, h6⟩ := flush_spec w e hinv he hop hbuf hlen herr hd
+    refine ⟨e', ?_, ?_, h3, ?_, ?_⟩
     · rw [h1, h4]; simp [Wr.stepA, hc]
     · rw [h4] at h2; simpa [Wr.stepA, hc] using h2
     · rw [h5]; simp [Wr.stepA, hc, encFrames, encAF, flushTemplate_af]
+    · rw [h6]; simp [Wr.stepA, hc]
 
 /-- FlushFragment refines the frame level. -/
 theorem flushFrag_refines (w : Wr) (e : Env) (hinv : Inv w) (he : EnvOk e) (hop : w.op < 16)
     (hbuf : Bytes.WF w.buf) (hlen : w.buf.length < 2 ^ 63) (herr : w.err = false) :
     ∃ e', w.flushFrag e = some (none, (w.stepA .flushFrag).1, e') ∧ Inv (w.stepA .flushFrag).1 ∧ EnvOk e'
       ∧ e'.dst.writes.flatten = e.dst.writes.flatten ++ encFrames w.client (w.stepA .flushFrag).2.1 e
-      ∧ e'.masks = (if w.client ∧ w.buf ≠ [] then e.popMask.2.masks else e.masks) := by
+      ∧ e'.masks = (if w.client then e.masks.drop (w.stepA .flushFrag).2.1.length else e.masks) := by
   obtain ⟨h0, h1⟩ := flushFrag_spec w e hinv he hop hbuf hlen herr
   by_cases hb : w.buf = []
-  · refine ⟨e, ?_, ?_, he, ?_, by simp [hb]⟩
+  · refine ⟨e, ?_, ?_, he, ?_, by simp [Wr.stepA, hb]⟩
     · rw [h0 hb]; simp [Wr.stepA, hb]
     · simpa [Wr.stepA, hb] using hinv
     · simp [Wr.stepA, hb, encFrames]
-  · obtain ⟨w', e', g1, g2, g3, g4, g5⟩ := h1 hb
+  · obtain ⟨w', e', g1, g2, g3, g4, g5, g6⟩ := h1 hb
     have hc : (w.buf.length == 0) = false := by
       cases hbb : w.buf with
       | nil => exact absurd hbb hb
       | cons x xs => simp
-    -- masks after the frame: from the flushFragment spec
-    obtain ⟨e2, f1, _, _, f4⟩ := flushFragment_spec w e false hinv he hop hbuf hlen
-    have he2 : e2 = e' := by
-      unfold Wr.flushFrag at g1
-      have hc2 : (w.buf.length == 0 || w.err) = false := by simp [hc, herr]
-      simp only [hc2, f1, Bool.false_eq_true, if_false, Option.some.injEq, Prod.mk.injEq] at g1
-      exact g1.2.2
     refine ⟨e', ?_, ?_, g3, ?_, ?_⟩
     · rw [g1, g4]; simp [Wr.stepA, hc]
     · rw [g4] at g2; simpa [Wr.stepA, hc] using g2
     · rw [g5]; simp [Wr.stepA, hc, encFrames, encAF, flushTemplate_af]
-    · rw [← he2, f4]; simp [hb]
+    · rw [g6]; simp [Wr.stepA, hc]
 
 /-- WriteThrough (empty buffer) refines the frame level. -/
 theorem writeThrough_refines (w : Wr) (e : Env) (p : Bytes) (hinv : Inv w) (he : EnvOk e) (hop : w.op < 16)
     (hp : Bytes.WF p) (hlen : p.length < 2 ^ 63) (herr : w.err = false) (hb : w.buf = []) :
     ∃ e', w.writeThrough e p = some (p.length, none, (w.stepA (.writeThrough p)).1, e')
       ∧ Inv (w.stepA (.writeThrough p)).1 ∧ EnvOk e'
-      ∧ e'.dst.writes.flatten = e.dst.writes.flatten ++ encFrames w.client (w.stepA (.writeThrough p)).2.1 e := by
-  obtain ⟨w', e', g1, g2, g3, g4, g5⟩ := writeThrough_spec w e p hinv he hop hp hlen herr hb
+      ∧ e'.dst.writes.flatten = e.dst.writes.flatten ++ encFrames w.client (w.stepA (.writeThrough p)).2.1 e
+      ∧ e'.masks = (if w.client then e.masks.drop (w.stepA (.writeThrough p)).2.1.length else e.masks) := by
+  obtain ⟨w', e', g1, g2, g3, g4, g5, g6⟩ := writeThrough_spec w e p hinv he hop hp hlen herr hb
   have hc : (w.buf.length != 0) = false := by simp [hb]
-  refine ⟨e', ?_, ?_, g3, ?_⟩
+  refine ⟨e', ?_, ?_, g3, ?_, by rw [g6]; simp [Wr.stepA, hc]⟩
   · rw [g1, g4]; simp [Wr.stepA, hc]
   · rw [g4] at g2; simpa [Wr.stepA, hc] using g2
   · rw [g5]
@@ -546,7 +551,8 @@ theorem write_refines (w : Wr) (e : Env) (p : Bytes) (hinv : Inv w) (he : EnvOk 
     (herr : w.err = false) (hnf : w.noFlush = false) :
     ∃ e', w.write e p = some (p.length, none, (w.stepA (.write p)).1, e')
       ∧ Inv (w.stepA (.write p)).1 ∧ EnvOk e'
-      ∧ e'.dst.writes.flatten = e.dst.writes.flatten ++ encFrames w.client (w.stepA (.write p)).2.1 e := by
+      ∧ e'.dst.writes.flatten = e.dst.writes.flatten ++ encFrames w.client (w.stepA (.write p)).2.1 e
+      ∧ e'.masks = (if w.client then e.masks.drop (w.stepA (.write p)).2.1.length else e.masks) := by
   obtain ⟨client, op, rawLen, off, buf, dirty, fseq, noFlush, err, ext⟩ := w
   simp only at herr hnf hop hbuf hlen
   subst herr hnf
@@ -556,20 +562,21 @@ theorem write_refines (w : Wr) (e : Env) (p : Bytes) (hinv : Inv w) (he : EnvOk 
   simp only at hoff hroom
   by_cases hA : p.length ≤ rawLen - off - buf.length
   · -- it fits
-    refine ⟨e, ?_, ?_, he, ?_⟩
+    refine ⟨e, ?_, ?_, he, ?_, ?_⟩
     · rw [write_fits _ e p (by simpa [Wr.available, Wr.size] using hA) rfl]
       simp [Wr.stepA, Wr.available, Wr.size, hA]
     · simp only [Wr.stepA, Wr.available, Wr.size, hA, if_true]
       exact ⟨hoff, hroom, by simp only [List.length_append, Wr.size]; omega⟩
     · simp [Wr.stepA, Wr.available, Wr.size, hA, encFrames]
+    · simp [Wr.stepA, Wr.available, Wr.size, hA]
   · by_cases hB : buf = []
     · -- empty buffer: straight through
       subst hB
       simp only [List.length_nil, Nat.sub_zero] at hA
       have hinv0 : Inv (⟨client, op, rawLen, off, [], true, fseq, false, false, ext⟩ : Wr) := ⟨hoff, hroom, by simp [Wr.size]⟩
-      obtain ⟨e1, g1, g2, g3, g4⟩ := writeThrough_refines ⟨client, op, rawLen, off, [], true, fseq, false, false, ext⟩ e p hinv0 he hop hp (by omega) rfl rfl
-      simp only [Wr.stepA, List.length_nil, bne_self_eq_false, Bool.false_eq_true, if_false] at g1 g2 g4
-      refine ⟨e1, ?_, ?_, g3, ?_⟩
+      obtain ⟨e1, g1, g2, g3, g4, g5⟩ := writeThrough_refines ⟨client, op, rawLen, off, [], true, fseq, false, false, ext⟩ e p hinv0 he hop hp (by omega) rfl rfl
+      simp only [Wr.stepA, List.length_nil, bne_self_eq_false, Bool.false_eq_true, if_false, List.length_cons] at g1 g2 g4 g5
+      refine ⟨e1, ?_, ?_, g3, ?_, by rw [g5]; simp [Wr.stepA, Wr.available, Wr.size, hA]⟩
       · unfold Wr.write Wr.write.loop
         have hc : decide (p.length > (⟨client, op, rawLen, off, [], true, fseq, false, false, ext⟩ : Wr).available) = true := by
           simp [Wr.available, Wr.size]; omega
@@ -597,7 +604,7 @@ theorem write_refines (w : Wr) (e : Env) (p : Bytes) (hinv : Inv w) (he : EnvOk 
         cases hq : buf ++ p.take (rawLen - off - buf.length) with
         | nil => exact absurd hq hw1ne
         | cons _ _ => simp
-      simp only [Wr.stepA, w1, hne0, Bool.false_eq_true, if_false] at g1 g2 g4
+      simp only [Wr.stepA, w1, hne0, Bool.false_eq_true, if_false, List.length_cons, List.length_nil] at g1 g2 g4 g5
       have hne1 : (buf.length == 0) = false := by
         cases hq : buf with
         | nil => exact absurd hq hB
@@ -610,7 +617,7 @@ theorem write_refines (w : Wr) (e : Env) (p : Bytes) (hinv : Inv w) (he : EnvOk 
         have hC2 : p.length ≤ rawLen - off + (rawLen - off - buf.length) := by
           simp only [List.length_drop] at hC; omega
         have harith : rawLen - off - buf.length + (p.length - (rawLen - off - buf.length)) = p.length := by omega
-        refine ⟨e1, ?_, ?_, g3, ?_⟩
+        refine ⟨e1, ?_, ?_, g3, ?_, by rw [g5]; simp [Wr.stepA, Wr.available, Wr.size, hA, hne1, hC2]⟩
         · unfold Wr.write Wr.write.loop
           simp only [hc, Bool.not_false, Bool.and_self, if_true, Bool.false_eq_true, if_false, hne1]
           simp only [Wr.available, Wr.size, g1]
@@ -628,13 +635,14 @@ theorem write_refines (w : Wr) (e : Env) (p : Bytes) (hinv : Inv w) (he : EnvOk 
           simp only [List.length_drop] at hC; omega
         have harith : rawLen - off - buf.length + (p.length - (rawLen - off - buf.length)) = p.length := by omega
         have hinv2 : Inv w2 := ⟨hoff, hroom, by simp [w2, Wr.size]⟩
-        obtain ⟨e2, k1, k2, k3, k4⟩ := writeThrough_refines w2 e1 (p.drop (rawLen - off - buf.length)) hinv2 g3 hop
+        obtain ⟨e2, k1, k2, k3, k4, k5⟩ := writeThrough_refines w2 e1 (p.drop (rawLen - off - buf.length)) hinv2 g3 hop
           (fun x hx => hp x (List.mem_of_mem_drop hx)) (by simp only [List.length_drop]; omega) rfl rfl
-        simp only [Wr.stepA, w2, List.length_nil, bne_self_eq_false, Bool.false_eq_true, if_false] at k1 k2 k4
+        simp only [Wr.stepA, w2, List.length_nil, bne_self_eq_false, Bool.false_eq_true, if_false, List.length_cons] at k1 k2 k4 k5
         have hc2 : decide ((p.drop (rawLen - off - buf.length)).length >
             (⟨client, op, rawLen, off, [], true, fseq + 1, false, false, ext⟩ : Wr).available) = true := by
           simp [Wr.available, Wr.size]; simp only [List.length_drop] at hC; omega
-        refine ⟨e2, ?_, ?_, k3, ?_⟩
+        refine ⟨e2, ?_, ?_, k3, ?_, by
+          rw [k5, g5]; cases client <;> simp [Wr.stepA, Wr.available, Wr.size, hA, hne1, hC2]⟩
         · unfold Wr.write Wr.write.loop
           simp only [hc, Bool.not_false, Bool.and_self, if_true, Bool.false_eq_true, if_false, hne1]
           simp only [Wr.available, Wr.size, g1]
@@ -652,9 +660,212 @@ theorem write_refines (w : Wr) (e : Env) (p : Bytes) (hinv : Inv w) (he : EnvOk 
               = encFrames client [(⟨client, op, rawLen, off, [], true, fseq + 1, false, false, ext⟩ : Wr).af false (p.drop (rawLen - off - buf.length))] (if client then e.popMask.2 else e) := by
             apply encFrames_masks
             rw [g5]
-            cases client <;> simp [w1, hw1ne]
+            cases client <;> simp [popMask_masks]
           rw [hm]
           simp [Wr.stepA, Wr.available, Wr.size, hA, hne1, hC2, encFrames, Wr.af, List.append_assoc]
 
+
+/-! ### every history, at the byte level -/
+
+/-- one operation of the byte-level writer (results dropped: the refinement lemmas say what they are) -/
+def stepC (w : Wr) (e : Env) : WOp → Option (Wr × Env)
+  | .write p => (w.write e p).map fun r => (r.2.2.1, r.2.2.2)
+  | .writeThrough p => (w.writeThrough e p).map fun r => (r.2.2.1, r.2.2.2)
+  | .flushFrag => (w.flushFrag e).map fun r => (r.2.1, r.2.2)
+  | .flush => (w.flush e).map fun r => (r.2.1, r.2.2)
+
+def runC (w : Wr) (e : Env) : List WOp → Option (Wr × Env)
+  | [] => some (w, e)
+  | o :: os => match stepC w e o with
+    | none => none
+    | some (w1, e1) => runC w1 e1 os
+
+/-- what the run-level theorem carries from operation to operation -/
+structure Good (w : Wr) : Prop where
+  inv : Inv w
+  op : w.op < 16
+  buf : Bytes.WF w.buf
+  err : w.err = false
+  nf : w.noFlush = false
+  raw : w.rawLen < 2 ^ 63
+
+/-- the caller's bytes are bytes, and sizes stay below 2^63 (Go's int) -/
+def OpOK (rawLen : Nat) : WOp → Prop
+  | .write p => Bytes.WF p ∧ rawLen + p.length < 2 ^ 63
+  | .writeThrough p => Bytes.WF p ∧ p.length < 2 ^ 63
+  | _ => True
+
+theorem wf_append {a b : Bytes} (ha : Bytes.WF a) (hb : Bytes.WF b) : Bytes.WF (a ++ b) := by
+  intro x hx; rcases List.mem_append.mp hx with h | h
+  · exact ha x h
+  · exact hb x h
+
+theorem wf_nil : Bytes.WF ([] : Bytes) := by intro x hx; cases hx
+
+theorem stepA_fields (w : Wr) (o : WOp) :
+    (w.stepA o).1.client = w.client ∧ (w.stepA o).1.op = w.op ∧ (w.stepA o).1.rawLen = w.rawLen
+    ∧ (w.stepA o).1.err = w.err ∧ (w.stepA o).1.noFlush = w.noFlush ∧ (w.stepA o).1.ext = w.ext := by
+  cases o <;> simp only [Wr.stepA] <;> (repeat' split) <;> simp
+
+theorem stepA_buf_wf (w : Wr) (o : WOp) (hb : Bytes.WF w.buf) (ho : OpOK w.rawLen o) : Bytes.WF (w.stepA o).1.buf := by
+  cases o with
+  | flush => simp only [Wr.stepA]; split <;> first | exact hb | exact wf_nil
+  | flushFrag => simp only [Wr.stepA]; split <;> first | exact hb | exact wf_nil
+  | writeThrough p => simp only [Wr.stepA]; split <;> exact hb
+  | write p =>
+    have hp : Bytes.WF p := ho.1
+    simp only [Wr.stepA]
+    split
+    · exact wf_append hb hp
+    · split
+      · exact hb
+      · split
+        · exact fun x hx => hp x (List.mem_of_mem_drop hx)
+        · exact wf_nil
+
+/-- bytes of consecutive batches of frames: the second batch starts with the keys the first left -/
+theorem encFrames_append (c : Bool) (a b : List AF) (e e1 : Env)
+    (h : e1.masks = (if c then e.masks.drop a.length else e.masks)) :
+    encFrames c (a ++ b) e = encFrames c a e ++ encFrames c b e1 := by
+  induction a generalizing e with
+  | nil =>
+    simp only [List.nil_append, encFrames, List.length_nil, List.drop_zero, ite_self] at h ⊢
+    exact encFrames_masks c b e e1 h.symm
+  | cons f fs ih =>
+    simp only [List.cons_append, encFrames, List.append_assoc]
+    congr 1
+    apply ih
+    rw [h]
+    cases c
+    · simp
+    · simp [popMask_masks, List.drop_drop, Nat.add_comm]
+
+/-- One operation of the byte-level writer does what the frame-level writer says: same new state,
+    and the destination receives exactly the encodings of the frames it emits. -/
+theorem stepC_refines (w : Wr) (e : Env) (o : WOp) (hg : Good w) (he : EnvOk e) (ho : OpOK w.rawLen o) :
+    ∃ e', stepC w e o = some ((w.stepA o).1, e') ∧ Good (w.stepA o).1 ∧ EnvOk e'
+      ∧ e'.dst.writes.flatten = e.dst.writes.flatten ++ encFrames w.client (w.stepA o).2.1 e
+      ∧ e'.masks = (if w.client then e.masks.drop (w.stepA o).2.1.length else e.masks) := by
+  have hlen : w.buf.length < 2 ^ 63 := by
+    have := hg.inv.fits; unfold Wr.size at this; have := hg.raw; omega
+  obtain ⟨f1, f2, f3, f4, f5, _⟩ := stepA_fields w o
+  have good' : Inv (w.stepA o).1 → Good (w.stepA o).1 := fun hi =>
+    ⟨hi, by rw [f2]; exact hg.op, stepA_buf_wf w o hg.buf ho, by rw [f4]; exact hg.err, by rw [f5]; exact hg.nf,
+      by rw [f3]; exact hg.raw⟩
+  cases o with
+  | flush =>
+    obtain ⟨e', h1, h2, h3, h4, h5⟩ := flush_refines w e hg.inv he hg.op hg.buf hlen hg.err
+    exact ⟨e', by simp [stepC, h1], good' h2, h3, h4, h5⟩
+  | flushFrag =>
+    obtain ⟨e', h1, h2, h3, h4, h5⟩ := flushFrag_refines w e hg.inv he hg.op hg.buf hlen hg.err
+    exact ⟨e', by simp [stepC, h1], good' h2, h3, h4, h5⟩
+  | write p =>
+    obtain ⟨e', h1, h2, h3, h4, h5⟩ := write_refines w e p hg.inv he hg.op hg.buf ho.1 ho.2 hg.err hg.nf
+    exact ⟨e', by simp [stepC, h1], good' h2, h3, h4, h5⟩
+  | writeThrough p =>
+    by_cases hb : w.buf = []
+    · obtain ⟨e', h1, h2, h3, h4, h5⟩ := writeThrough_refines w e p hg.inv he hg.op ho.1 ho.2 hg.err hb
+      exact ⟨e', by simp [stepC, h1], good' h2, h3, h4, h5⟩
+    · -- ErrNotEmpty: nothing accepted, nothing sent, nothing drawn
+      have hne : (w.buf.length != 0) = true := by
+        cases hq : w.buf with
+        | nil => exact absurd hq hb
+        | cons _ _ => simp
+      have hs : w.stepA (.writeThrough p) = (w, [], []) := by simp [Wr.stepA, hne]
+      refine ⟨e, ?_, ?_, he, ?_, ?_⟩
+      · simp [stepC, Wr.writeThrough, hg.err, hne, hs]
+      · rw [hs]; exact hg
+      · rw [hs]; simp [encFrames]
+      · rw [hs]; simp
+
+/-- **Every history, byte for byte.** Starting from any writer in good standing (constructed by
+    NewWriterBuffer/NewWriterSize, or reached by earlier operations), with a destination that does not
+    fail and flushing enabled, after ANY sequence of Write / WriteThrough / FlushFragment / Flush the
+    byte-level writer is in exactly the state of the frame-level writer, and the destination has
+    received exactly the RFC 6455 encodings of the frames the frame-level writer emitted, in order,
+    each client frame masked with the next key drawn. -/
+theorem run_refines (ops : List WOp) : ∀ (w : Wr) (e : Env), Good w → EnvOk e → (∀ o ∈ ops, OpOK w.rawLen o) →
+    ∃ e', runC w e ops = some ((runA w ops).1, e') ∧ Good (runA w ops).1 ∧ EnvOk e'
+      ∧ e'.dst.writes.flatten = e.dst.writes.flatten ++ encFrames w.client (runA w ops).2.1 e
+      ∧ e'.masks = (if w.client then e.masks.drop (runA w ops).2.1.length else e.masks) := by
+  induction ops with
+  | nil => intro w e hg he _; exact ⟨e, rfl, hg, he, by simp [runA, encFrames], by simp [runA]⟩
+  | cons o os ih =>
+    intro w e hg he hops
+    obtain ⟨e1, s1, s2, s3, s4, s5⟩ := stepC_refines w e o hg he (hops o (List.mem_cons_self ..))
+    obtain ⟨f1, _, f3, _⟩ := stepA_fields w o
+    obtain ⟨e2, r1, r2, r3, r4, r5⟩ := ih (w.stepA o).1 e1 s2 s3
+      (fun o' ho' => by rw [f3]; exact hops o' (List.mem_cons_of_mem _ ho'))
+    refine ⟨e2, ?_, ?_, r3, ?_, ?_⟩
+    · simp only [runC, s1, runA]; exact r1
+    · simpa only [runA] using r2
+    · simp only [runA]
+      rw [r4, s4, f1, encFrames_append w.client _ _ e e1 s5, List.append_assoc]
+    · simp only [runA, List.length_append]
+      rw [r5, f1, s5]
+      cases w.client
+      · simp
+      · simp [List.drop_drop, Nat.add_comm]
+
+/-- Corollary (C06 as stated, for the bytes on the wire): from a new writer, after any history, what
+    the peer has received is the encoding of whole messages followed by the non-final frames of the
+    message still open, and their payloads plus what is still buffered are exactly the accepted
+    bytes, in order. -/
+theorem wire_history_ok (w0 : Wr) (e : Env) (ops : List WOp) (hg : Good w0) (he : EnvOk e)
+    (hfresh : w0.fseq = 0) (hempty : w0.buf = []) (hops : ∀ o ∈ ops, OpOK w0.rawLen o) :
+    ∃ e', runC w0 e ops = some ((runA w0 ops).1, e')
+      ∧ e'.dst.writes.flatten = e.dst.writes.flatten ++ encFrames w0.client (runA w0 ops).2.1 e
+      ∧ Trace w0.op w0.ext (runA w0 ops).2.1 (runA w0 ops).1
+      ∧ (runA w0 ops).2.1.flatMap (·.plain) ++ (runA w0 ops).1.buf = (runA w0 ops).2.2 := by
+  obtain ⟨e', r1, _, _, r4, _⟩ := run_refines ops w0 e hg he hops
+  obtain ⟨t, c⟩ := history_ok w0 ops hfresh
+  exact ⟨e', r1, r4, t, by rw [c, hempty]; rfl⟩
+
+/-- the bytes handed to Write, in order -/
+def written : List WOp → Bytes
+  | [] => []
+  | .write p :: os => p ++ written os
+  | _ :: os => written os
+
+def noThrough : List WOp → Bool
+  | [] => true
+  | .writeThrough _ :: _ => false
+  | _ :: os => noThrough os
+
+/-- With Write / FlushFragment / Flush only, every byte handed to Write is accepted: the accepted
+    bytes of the frame level are the written bytes, whatever the sizes. -/
+theorem accepted_is_written (ops : List WOp) (w : Wr) (h : noThrough ops = true) :
+    (runA w ops).2.2 = written ops := by
+  induction ops generalizing w with
+  | nil => rfl
+  | cons o os ih =>
+    cases o with
+    | writeThrough p => simp [noThrough] at h
+    | write p =>
+      simp only [runA, written]
+      have : (w.stepA (.write p)).2.2 = p := by
+        simp only [Wr.stepA]; (repeat' split) <;> rfl
+      rw [this, ih _ (by simpa [noThrough] using h)]
+    | flush =>
+      simp only [runA, written]
+      have : (w.stepA .flush).2.2 = [] := by simp only [Wr.stepA]; split <;> rfl
+      rw [this, ih _ (by simpa [noThrough] using h)]; rfl
+    | flushFrag =>
+      simp only [runA, written]
+      have : (w.stepA .flushFrag).2.2 = [] := by simp only [Wr.stepA]; split <;> rfl
+      rw [this, ih _ (by simpa [noThrough] using h)]; rfl
+
+/-- Non-vacuity: a writer built by NewWriterBuffer(client, binary, 20 bytes) is in good standing at a
+    message boundary, and a history with a write larger than the buffer meets the per-operation premise. -/
+example : ∃ w, newWriterBuffer true 2 20 = some w ∧ Good w ∧ w.fseq = 0 ∧ w.buf = []
+    ∧ (∀ o ∈ [WOp.write (List.replicate 50 7), .flushFrag, .write [1, 2], .flush], OpOK w.rawLen o) := by
+  refine ⟨_, rfl, ⟨inv_new true 2 20 _ rfl, by decide, wf_nil, rfl, rfl, by decide⟩, rfl, rfl, ?_⟩
+  intro o ho
+  simp only [List.mem_cons, List.mem_nil_iff, or_false] at ho
+  rcases ho with rfl | rfl | rfl | rfl
+  · exact ⟨by intro x hx; rw [List.eq_of_mem_replicate hx]; decide, by decide⟩
+  · trivial
+  · exact ⟨by decide, by decide⟩
+  · trivial
 
 end Ws.C06
